@@ -219,7 +219,8 @@ class pCN(Sampler):
     def single_update(self, x_t, loglike_eval_t):
         # propose state
         xi = self.prior.sample(1).flatten()   # sample from the prior
-        x_star = np.sqrt(1-self.scale**2)*x_t + self.scale*xi   # pCN proposal
+        prior_mean = getattr(self.prior, 'mean', 0) # pCN is defined relative to the prior mean
+        x_star = prior_mean + np.sqrt(1-self.scale**2)*(x_t-prior_mean) + self.scale*(xi-prior_mean)   # pCN proposal
 
         # evaluate target
         loglike_eval_star =  self._loglikelihood(x_star) 
